@@ -51,13 +51,21 @@ def lastScan : List TRes → Nat → Option (Nat × Bool)   -- (index, isAmino)
       else if r.kind = .nucleic then some (k, false)
       else lastScan rs k
 
-/-- `assign_termini(chain)`; `cyclic` = the N–C distance test succeeded -/
+/-- the residue the ring of a cyclic chain closes on (repaired code, `fix:` in /repo): the last amino
+residue, looking through trailing waters / hetero groups exactly as the C-terminus assignment does
+(`lastScan`); the last residue when the scan ends on NH2 / NME, a nucleotide, or finds nothing -/
+def ringEnd (chain : List TRes) (res0 : TRes) : TRes :=
+  match lastScan chain chain.length with
+  | some (i, true) => (chain[i]?).getD res0
+  | _ => chain.getLastD res0
+
+/-- `assign_termini(chain)`; `cyclic` = the N–C distance test (first residue's N, ring end's C) succeeded -/
 def assignTermini (neutraln neutralc cyclic : Bool) (chain : List TRes) : Option (List TRes) :=
   match chain with
   | [] => none                                   -- IndexError
   | res0 :: _ =>
     let reslast := chain.getLastD res0
-    if res0.atoms.contains (str "N") && reslast.atoms.contains (str "C") && cyclic then some chain else
+    if res0.atoms.contains (str "N") && (ringEnd chain res0).atoms.contains (str "C") && cyclic then some chain else
     -- N terminus / 5' end
     let chain :=
       if res0.kind = .amino then
